@@ -59,7 +59,7 @@ class Enc:
 
     def ev(self, e):
         if e[0] == "use":
-            return f"EUse {self.n[e[1]]}"
+            return f"EUse {self.n[e[1]]}"       # (a 4th field marks reads made by a nested def)
         r = e[2]
         rhs = f"RCopy {self.n[r[1]]}" if r[0] == "copy" else f"RLit {self.t[r[1]]}"
         return f"EAssign {self.n[e[1]]} ({rhs})"
@@ -263,7 +263,7 @@ def run(ctx) -> int:
                    {"failed": info["failed"], "log": info["log"][-3000:]}, found_input=False)
 
     quick = ctx.quick
-    n_plain, n_const = (240, 130) if quick else (2600, 1400)
+    n_plain, n_const = (240, 130) if quick else (900, 500)
     progs = []
     for cse in json.loads((HERE / "corpus" / "cases.json").read_text()):
         progs.append({"id": "corpus/" + cse["id"], "src": cse["src"], "group": "corpus",
@@ -303,7 +303,7 @@ def run(ctx) -> int:
     T["model_eval"] = round(time.time() - t0, 1); t0 = time.time()
     n_diff = 0
     samples = []
-    nontrivial = 0
+    nontrivial = set()
     for r in recs:
         src = by_id[r["id"]]["src"]
         if r["outcome"] in ("crash", "other-error"):
@@ -335,7 +335,7 @@ def run(ctx) -> int:
             err = r.get("error") if inst["result"] == "error" else None
             diffs = compare_instance(inst, o, err)
             if len(inst["blocks"]) >= 4:
-                nontrivial += 1
+                nontrivial.add((src, k))
             if len(samples) < 6 and o["code"] in (1, 2, 3) and k == 0:
                 samples.append({"program": src, "real": r.get("error"), "model": {x: o[x] for x in ("code", "site", "vars", "cands", "tcands")}})
             if diffs:
@@ -357,7 +357,7 @@ def run(ctx) -> int:
         got = {"outcome": r["outcome"]}
         if r["outcome"] == "error":
             got.update(cls=r["error"]["cls"], var=r["error"]["var"], line=r["error"]["line"])
-        if got != ex:
+        if any(got.get(k) != v for k, v in ex.items()):
             ctx.report(f"corpus:{r['id']}", "counterexample", "corpus verdict",
                        {"program": pr["src"], "expected": ex, "observed": got, "replay": replay_cmd(pr["src"])})
 
@@ -409,7 +409,12 @@ def run(ctx) -> int:
          "impl_check.py: extraction of variable events from the block statements' ASTs; repo_shim",
          "types of right-hand sides are literal or copied (expression typing itself is not modelled)"],
         evaluations=len(obs) + spec_stats["agree"] + spec_stats["either"] + spec_stats["DISAGREE"],
-        distinct_nontrivial={"count": nontrivial, "rule": "check_cfg instances with >= 4 basic blocks compared model vs implementation"},
+        distinct_nontrivial=len(nontrivial),
+        rule="programs: corpus + gen_progs (seeded; two types, nested if/while/for/break/continue/return, dead code, "
+             "literal-constant conditions in the 'const' group, nested functions with captures); each check_cfg call of the "
+             "real checker is one case for the model comparison, each program one case for the syntactic specification; "
+             "non-trivial = check_cfg instance whose CFG has >= 4 basic blocks; distinct = by (program text, instance index)",
+        programs=len(recs),
         correspondence=stats, specification=spec_stats, samples=samples,
         phase_seconds=T,
         cases={"plain": n_plain, "const": n_const, "corpus": len([p for p in progs if p["group"] == "corpus"])},
